@@ -282,8 +282,70 @@ fn substitute(kind: &str, maddr: u8, r: &Req, n_in: usize, rng: &mut impl Rng) -
     }
 }
 
+/// Wraps the real DpMaster: every FdlApplication call-back is recorded with the master's state
+/// (hook views) before and after, for conformance checking against spec/Dp.tla (TraceDpM).
+struct DpWrap<'a, 'b> {
+    inner: &'b mut dp::DpMaster<'a>,
+    calls: Option<std::rc::Rc<std::cell::RefCell<Vec<Value>>>>,
+}
+impl DpWrap<'_, '_> {
+    fn view(&self) -> Value {
+        let per: Vec<Value> = self.inner.iter().map(|(_, p)| {
+            let v = p.verif_view();
+            json!({"st": v.state, "rc": v.retry_count, "fcb": v.fcb, "dn": v.diag_needed, "dif": v.diag_in_flight})
+        }).collect();
+        let ev = self.inner.verif_last_events();
+        let pos = |h: dp::PeripheralHandle| self.inner.iter().position(|(x, _)| x == h).map(|x| x as i64 + 1).unwrap_or(-1);
+        let (p, e) = match ev.peripheral { Some((h, e)) => (pos(h), ev_name(e)), None => (0, "none") };
+        json!({"per": per, "cyc": self.inner.verif_cycle_index(), "ev": {"cc": ev.cycle_completed, "p": p, "e": e}})
+    }
+}
+impl fdl::FdlApplication for DpWrap<'_, '_> {
+    fn transmit_telegram(&mut self, now: Instant, f: &fdl::FdlActiveStation, tx: fdl::TelegramTx, hp: fdl::HighPrioOnly) -> Option<fdl::TelegramTxResponse> {
+        let Some(calls) = self.calls.clone() else { return self.inner.transmit_telegram(now, f, tx, hp) };
+        let pre = self.view();
+        let r = self.inner.transmit_telegram(now, f, tx, hp);
+        calls.borrow_mut().push(json!({"ev":"MTx","hp": hp == fdl::HighPrioOnly::Yes, "sent": r.is_some(), "pre": pre, "post": self.view()}));
+        r
+    }
+    fn receive_reply(&mut self, now: Instant, f: &fdl::FdlActiveStation, addr: u8, t: fdl::Telegram) {
+        let Some(calls) = self.calls.clone() else { return self.inner.receive_reply(now, f, addr, t) };
+        let pre = self.view();
+        let cyc = self.inner.verif_cycle_index();
+        let nin = if cyc >= 0 { self.inner.iter().nth(cyc as usize).map(|(_, p)| p.pi_i().len()) } else { None };
+        let r = match &t {
+            fdl::Telegram::ShortConfirmation(_) => json!({"k":"sc","diagok":false,"pf":false,"cf":false,"pr":false,"nr":false,"status":"ok","dxsaps":false,"lenok":false}),
+            fdl::Telegram::Data(d) => {
+                let diagok = d.h.dsap == Some(62) && d.h.ssap == Some(60) && d.pdu.len() >= 6;
+                let fl = |byte: usize, mask: u8| diagok && d.pdu[byte] & mask != 0;
+                let status = match d.is_response() {
+                    Some(fdl::ResponseStatus::Ok) => "ok",
+                    Some(fdl::ResponseStatus::DataLow) => "dl",
+                    Some(fdl::ResponseStatus::DataHigh) => "dh",
+                    Some(fdl::ResponseStatus::SapNotEnabled) => "rs",
+                    Some(_) => "other",
+                    None => "request",
+                };
+                json!({"k":"data","diagok":diagok,"pf":fl(0,0x40),"cf":fl(0,0x04),"pr":fl(1,0x01),"nr":fl(0,0x02),"status":status,
+                       "dxsaps": d.h.dsap.is_none() && d.h.ssap.is_none(), "lenok": Some(d.pdu.len()) == nin})
+            }
+            fdl::Telegram::Token(_) => json!({"k":"token"}),
+        };
+        self.inner.receive_reply(now, f, addr, t);
+        calls.borrow_mut().push(json!({"ev":"MRx","addr":addr,"r":r,"pre":pre,"post":self.view()}));
+    }
+    fn handle_timeout(&mut self, now: Instant, f: &fdl::FdlActiveStation, addr: u8) {
+        let Some(calls) = self.calls.clone() else { return self.inner.handle_timeout(now, f, addr) };
+        let pre = self.view();
+        self.inner.handle_timeout(now, f, addr);
+        calls.borrow_mut().push(json!({"ev":"MTo","addr":addr,"pre":pre,"post":self.view()}));
+    }
+}
+
 pub fn run(args: &Args) {
     let out = args.str("out", "/dev/stdout");
+    let mout = args.str("mout", "");
+    let mut mlog = if mout.is_empty() { None } else { Some(EvLog::create(&mout)) };
     let seed0: u64 = args.num("seed", 1);
     let runs: u64 = args.num("runs", 1);
     let thorough = args.str("tier", "quick") == "thorough";
@@ -291,14 +353,20 @@ pub fn run(args: &Args) {
     let mut log = EvLog::create(&out);
     for r in 0..runs {
         let seed = seed0.wrapping_mul(1_000_003).wrapping_add(r);
-        one_run(&mut log, seed, thorough, &mode);
+        one_run(&mut log, &mut mlog, seed, thorough, &mode);
         log.push(json!({"ev":"Reset"}));
+        if let Some(m) = mlog.as_mut() {
+            m.push(json!({"ev":"Reset"}));
+        }
     }
     log.flush();
+    if let Some(m) = mlog.as_mut() {
+        m.flush();
+    }
     eprintln!("dp: {} events", log.count);
 }
 
-fn one_run(log: &mut EvLog, seed: u64, thorough: bool, mode: &str) {
+fn one_run(log: &mut EvLog, mlog: &mut Option<EvLog>, seed: u64, thorough: bool, mode: &str) {
     let mut rng = rand::rngs::StdRng::seed_from_u64(seed);
     let bauds = [(Baudrate::B500000, 500_000i64, 200u16), (Baudrate::B1500000, 1_500_000, 300), (Baudrate::B187500, 187_500, 100), (Baudrate::B12000000, 12_000_000, 1000)];
     let (baud, rate, minslot) = bauds[rng.gen_range(0..bauds.len())];
@@ -419,6 +487,11 @@ fn one_run(log: &mut EvLog, seed: u64, thorough: bool, mode: &str) {
     log.flush();
     f.set_online();
     dpm.enter_operate();
+    let mcalls: Option<std::rc::Rc<std::cell::RefCell<Vec<Value>>>> = mlog.as_ref().map(|_| Default::default());
+    if let Some(m) = mlog.as_mut() {
+        m.push(json!({"ev":"Cfg","mode":"dpm","seed":seed,"retry":retry,"np":np,
+            "per": pcs.iter().map(|p| json!({"prm":true,"cfg":true,"nin0":p.n_in == 0})).collect::<Vec<_>>()}));
+    }
 
     // ---- fault plan
     let fault_p: f64 = if mode == "clean" || mode == "neg" { 0.0 } else if mode == "flags" { 0.05 } else { [0.0, 0.03, 0.1, 0.3, 0.6][rng.gen_range(0..5)] };
@@ -516,11 +589,20 @@ fn one_run(log: &mut EvLog, seed: u64, thorough: bool, mode: &str) {
             let fdl_ = &mut f;
             let p = &mut phy;
             let d = &mut dpm;
+            let c = mcalls.clone();
             guarded(|| {
-                fdl_.poll(Instant::from_micros(now), p, d);
+                {
+                    let mut w = DpWrap { inner: &mut *d, calls: c };
+                    fdl_.poll(Instant::from_micros(now), p, &mut w);
+                }
                 d.take_last_events()
             })
         };
+        if let (Some(m), Some(c)) = (mlog.as_mut(), mcalls.as_ref()) {
+            for e in c.borrow_mut().drain(..) {
+                m.push(e);
+            }
+        }
         polls += 1;
         let ev = match r {
             Ok(ev) => ev,
